@@ -439,6 +439,9 @@ func (cl *vkCluster) waitAll(pred func(mc *meta.Client) bool) error {
 // syncMeta waits until every node's metadata cache has reached the newest index any node has
 // seen (shard groups created by a write on one node reach the others by long polling).
 func (cl *vkCluster) syncMeta() error {
+	// a command that always goes through raft: when it returns, node 0's cache holds every
+	// metadata change committed before it (including changes made by the meta service itself)
+	cl.nodes[0].srv.MetaClient.DropDatabase("zz_sync_barrier")
 	var max uint64
 	for _, nd := range cl.nodes {
 		if d := nd.srv.MetaClient.Data(); d.Index > max {
